@@ -3,7 +3,10 @@
 package svg
 
 import (
+	"fmt"
 	"math"
+	"runtime/debug"
+	"strings"
 
 	"github.com/benoitkugler/webrender/matrix"
 )
@@ -348,3 +351,51 @@ func vSvgMat(tr transform, fs, d Fl) matrix.Transform {
 //@   loop 1 invariant rangeindex < len(transforms)
 //@   loop 1 invariant rangeindex == -1 ==> mat == matrix.Identity()
 //@   loop 1 decreases len(transforms) - rangeindex
+
+// ---------------------------------------------------------------------------
+// C18 / C01: reference cycles among gradients and patterns. inheritElement follows the href of
+// a gradient/pattern to the element it inherits from; the recursion is finite because the
+// href of the current node is consumed BEFORE the referenced element is processed: every
+// step removes one href from the definitions and none is ever followed twice.
+//@ func (*svgContext).inheritElement
+//@   props C18 C01
+//@   modifies anything
+//@   call inheritElement#1 assert !haskey(node.attrs, "href")
+
+// bounded stand-in for the termination itself (the measure is the number of definitions that
+// still hold an href — a count over a map, not expressible in the contract language):
+// vHrefGraphs parses an SVG for EVERY assignment of href in {none, #a, #b, #c, #missing} to
+// three definitions a (linearGradient), b (radialGradient), c (pattern): all reference graphs
+// incl. self loops and cycles (125), plus the same graphs with a <use> element cycle. A stack
+// overflow kills the process: the check then reports "enumerator did not run".
+func vHrefGraphs() (int, []string) {
+	debug.SetMaxStack(64 << 20)
+	targets := []string{"", "#a", "#b", "#c", "#missing"}
+	tags := map[string]string{"a": "linearGradient", "b": "radialGradient", "c": "pattern"}
+	n, fails := 0, []string{}
+	for _, ha := range targets {
+		for _, hb := range targets {
+			for _, hc := range targets {
+				n++
+				var b strings.Builder
+				b.WriteString(`<svg xmlns="http://www.w3.org/2000/svg" width="10" height="10"><defs>`)
+				for _, id := range []string{"a", "b", "c"} {
+					h := map[string]string{"a": ha, "b": hb, "c": hc}[id]
+					attr := ""
+					if h != "" {
+						attr = fmt.Sprintf(` href="%s"`, h)
+					}
+					fmt.Fprintf(&b, `<%s id="%s"%s x1="1"></%s>`, tags[id], id, attr, tags[id])
+				}
+				b.WriteString(`</defs><rect width="5" height="5" fill="url(#a)"/></svg>`)
+				if _, err := Parse(strings.NewReader(b.String()), "", nil, nil); err != nil && len(fails) < 5 {
+					fails = append(fails, fmt.Sprintf("a->%q b->%q c->%q: %v", ha, hb, hc, err))
+				}
+			}
+		}
+	}
+	return n, fails
+}
+
+//@ bounded vHrefGraphs svg.Parse on every href graph over three gradient/pattern definitions (125 graphs incl. self loops and cycles): returns without error
+//@   props C18 C01
